@@ -22,12 +22,16 @@ AST (lists, first element is the tag):
   ['idx', e, k]            e[k]  (k an expression not depending on the focus)
   ['map', a, b]            a ! b
   ['arr', [members]]       square array constructor (3.1)
+  ['inst', e, T]           e instance of T   (T one of xs:integer xs:decimal xs:double xs:float xs:string xs:boolean)
   ['raw', text]            unmodelled XPath text (engine-only equivalences)
 """
 import math
 from decimal import Decimal
 from fractions import Fraction
 from functools import cmp_to_key
+
+
+FOCUS_REFS = ('string', 'string-length', 'position', 'last')
 
 
 class ModelError(Exception):
@@ -140,6 +144,8 @@ def render(e):
         return '(%s ! %s)' % (render(e[1]), render(e[2]))
     if t == 'arr':
         return '[' + ', '.join(render(m) for m in e[1]) + ']'
+    if t == 'inst':
+        return '(%s instance of %s)' % (render(e[1]), e[2])
     if t == 'raw':
         return e[1]
     raise ValueError('unknown node %r' % (t,))
@@ -753,6 +759,20 @@ class Interp:
 
     def e_ref(self, e, env):
         self.features.add('named-ref')
+        if e[2] == 0 and e[1] in FOCUS_REFS:
+            # XPath 3.1 3.1.6: a reference to a focus-dependent function captures the focus of the
+            # reference expression itself, not the focus in force when the item is called later
+            if '.' not in env:
+                raise ModelError('focus-dependent reference without a focus')
+            self.features.add('focus-ref')
+            item, pos, last = env['.'], env.get('.pos'), env.get('.last')
+            if e[1] == 'string':
+                return [Func(0, lambda args: [_atomic_opt([item])], 'named')]
+            if e[1] == 'string-length':
+                return [Func(0, lambda args: [len(_atomic_opt([item]))], 'named')]
+            if pos is None:
+                raise ModelError('position/last outside a simple map')
+            return [Func(0, lambda args: [pos if e[1] == 'position' else last], 'named')]
         return [self._builtin(e[1], e[2])]
 
     def e_scall(self, e, env):
@@ -774,11 +794,37 @@ class Interp:
     def e_map(self, e, env):
         out = []
         self.features.add('simple-map')
-        for item in self.ev(e[1], env):
+        src = self.ev(e[1], env)
+        for k, item in enumerate(src):
             env2 = dict(env)
             env2['.'] = item
+            env2['.pos'] = k + 1
+            env2['.last'] = len(src)
             out.extend(self.ev(e[2], env2))
         return out
+
+    def e_inst(self, e, env):
+        v = self.ev(e[1], env)
+        self.features.add('instance-of')
+        if len(v) != 1:
+            return [False]
+        x = v[0]
+        if isinstance(x, (Func, Arr)):
+            return [False]
+        t = e[2]
+        if isinstance(x, bool):
+            return [t == 'xs:boolean']
+        if isinstance(x, str):
+            return [t == 'xs:string']
+        if isinstance(x, Flt):
+            return [t == 'xs:float']
+        if isinstance(x, float):
+            return [t == 'xs:double']
+        if isinstance(x, int):
+            return [t in ('xs:integer', 'xs:decimal')]
+        if isinstance(x, Decimal):
+            return [t == 'xs:decimal']
+        raise ModelError('instance of: unmodelled value')
 
     def e_arr(self, e, env):
         if self.version < '3.1':
@@ -795,7 +841,7 @@ def children(e):
         out = [((i,), e[i]) for i in range(1, len(e))]
     elif t in ('range', 'and', 'or', 'map', 'idx'):
         out = [((1,), e[1]), ((2,), e[2])]
-    elif t in ('paren', 'neg'):
+    elif t in ('paren', 'neg', 'inst'):
         out = [((1,), e[1])]
     elif t in ('op', 'cmp', 'gcmp'):
         out = [((2,), e[2]), ((3,), e[3])]
